@@ -1,16 +1,80 @@
 package main
 
-import "fmt"
+import (
+	"fmt"
+	"strings"
+)
 
-// reExecute parses a recorded case term, runs its inputs on the implementation again and returns the
-// case term with fresh observations. (Implemented per stream as they come online.)
+// reExecute is kept for API compatibility: replay re-runs the whole check with the recorded seed (bin/check).
 func reExecute(stream, term string) (string, error) {
-	switch stream {
-	default:
-		return "", fmt.Errorf("replay of stream %q re-runs the whole check: use the 'rerun' command in the replay file", stream)
-	}
+	return "", fmt.Errorf("replay of stream %q re-runs the check with the recorded seed: bin/check <prop> --replay <file>", stream)
 }
 
+// shrinkGeneric minimises a diverging history of the "hist" family by delta debugging on its operations:
+// the history is regenerated from the seed, its generated ids are baked into the documents so that it replays
+// exactly, and operations are removed while the implementation and the model still disagree.
 func shrinkGeneric(stream string, seed int64, n, idx int, or *Oracle, prop, tier string) *Shrunk {
-	return nil
+	if !strings.HasPrefix(stream, "hist") {
+		return nil
+	}
+	backends := backendsOf(gBackend)
+	hi := idx / len(backends)
+	be := backends[idx%len(backends)]
+	g := NewGen(histSeed(seed, hi))
+	allowClose := be != "badger"
+	res, _ := runHistory(g, histCfg(gFocus, tier, allowClose && gFocus == "reopen"), be, false)
+	if res.Err != "" {
+		return nil
+	}
+	var ops []*Op
+	for _, s := range res.Steps {
+		ops = append(ops, s.Op)
+	}
+	ops = bakeIds(ops)
+	fails := func(cand []*Op) (bool, string, string) {
+		fresh := make([]*Op, len(cand))
+		for i, o := range cand {
+			c := *o
+			fresh[i] = &c
+		}
+		r := runOps(fresh, be)
+		if r.Err != "" {
+			return false, "", ""
+		}
+		term := r.caseTerm()
+		verdict := or.Check(term)
+		return verdict != "OK", term, verdict
+	}
+	bad, term, verdict := fails(ops)
+	if !bad {
+		return &Shrunk{Stream: stream, Explanation: "the divergence did not reproduce when the history was replayed with its ids baked in (it may depend on generated ids or on timing); re-run the check with the same seed"}
+	}
+	// ddmin: remove chunks while the disagreement persists, halving the chunk size when nothing can be removed
+	for chunk := len(ops) / 2; chunk >= 1; {
+		removed := false
+		for start := 0; start+chunk <= len(ops); {
+			cand := append(append([]*Op{}, ops[:start]...), ops[start+chunk:]...)
+			if b, t, v := fails(cand); b {
+				ops, term, verdict = cand, t, v
+				removed = true
+			} else {
+				start += chunk
+			}
+		}
+		if !removed {
+			chunk /= 2
+		} else if chunk > len(ops)/2 {
+			chunk = len(ops) / 2
+			if chunk < 1 {
+				break
+			}
+		}
+	}
+	var desc []string
+	for _, o := range ops {
+		desc = append(desc, clip(o.term(), 400))
+	}
+	return &Shrunk{Stream: stream, Case: term, ModelSays: verdict,
+		Explanation: fmt.Sprintf("minimal history (%d operations, backend %s) on which the implementation and the model disagree; the model verdict names the first differing step [step; 0 = result / 1 = raw key space; model's value]", len(ops), be),
+		Extra:       map[string]interface{}{"operations": desc, "backend": be}}
 }
